@@ -433,7 +433,7 @@ func init() {
 		NumCases: func(ctx *Ctx) int { return fixedCases(ctx, 1600, 60000) },
 		Gen:      genC12, Exec: execC12,
 		Probes:    []string{"usable_runs", "unusable_runs", "refused_with_diagnostic"},
-		FaultKeys: []string{"fault_unusable_undefined", "fault_unusable_norules", "fault_unusable_unproductive", "fault_unusable_mutual", "fault_unusable_unreachable", "fault_unusable_start", "fault_unusable_nullable-mix", "fault_unusable_deep"},
+		FaultKeys: []string{"fault_unusable_undefined", "fault_unusable_undefined-like-alias", "fault_unusable_undefined-like-field", "fault_unusable_undefined-case-of-token", "fault_unusable_norules", "fault_unusable_unproductive", "fault_unusable_mutual", "fault_unusable_unreachable", "fault_unusable_start", "fault_unusable_nullable-mix", "fault_unusable_deep"},
 		Assume:    []string{"reference productivity fixpoint", "a refusal 'says why' when it carries any non-empty diagnostic that is not a Go runtime error"},
 	})
 	Register(&Checker{
